@@ -442,3 +442,50 @@ def replay(check, path):
         return 1
     print('replay of %s: violation class %s NOT reproduced' % (path, rec['cls']))
     return 0
+
+
+# ------------------------------------------------------------------------------------------- determinism sweep
+def _det_worker(check, seed, wid, nworkers, n, outq):
+    ctx = Ctx()
+    try:
+        for idx in range(wid, n, nworkers):
+            try:
+                case = check.gen_case(seed, idx, 'quick')
+                a = check.run_case(ctx, case)
+                b = check.run_case(ctx, case)
+                same = a.get('hash') == b.get('hash') and sorted(v['cls'] for v in a['violations']) == sorted(v['cls'] for v in b['violations'])
+                outq.put({'idx': idx, 'same': same, 'a': a.get('hash'), 'b': b.get('hash'), 'da': a.get('discarded'), 'db': b.get('discarded')})
+            except Exception:
+                outq.put({'idx': idx, 'error': traceback.format_exc()})
+    finally:
+        ctx.close()
+        outq.put({'done': wid})
+
+
+def determinism(check, n=400, jobs=16, seed=None):
+    """Every case twice (fresh forked child each time), at the given worker count; prints the indices that differ."""
+    if seed is None:
+        seed = 1000003 * int(check.pid[1:]) + 17
+    outq = mp.Queue()
+    procs = [mp.Process(target=_det_worker, args=(check, seed, w, jobs, n, outq)) for w in range(jobs)]
+    for p in procs:
+        p.daemon = True
+        p.start()
+    done = 0
+    bad, errs, total = [], [], 0
+    while done < jobs:
+        r = outq.get()
+        if 'done' in r:
+            done += 1
+        elif 'error' in r:
+            errs.append(r)
+        else:
+            total += 1
+            if not r['same']:
+                bad.append(r)
+    print('%s determinism: %d cases x 2 at %d workers, %d mismatches, %d errors' % (check.pid, total, jobs, len(bad), len(errs)))
+    for r in bad[:10]:
+        print('  ', r)
+    for r in errs[:3]:
+        print(r['error'])
+    return 0 if not bad and not errs else 2
